@@ -281,7 +281,8 @@ class C16(Property):
             "= calls on real instances (long-lived + fresh + cold).  "
             "Non-trivial run = a failed or aborted call was followed by at "
             "least one further call on the same instance; distinct = "
-            "distinct event-log digests among those.")
+            "distinct event-log digests among those."
+            " Also generated: the same text again, results changed by the caller, every module returned earlier re-read after each later call, warnings turned into errors or recorded (12%), encoder instances through pvl.dumps/pvl.dump, date-like strings for the encoders, decoders with a quantity class that refuses unknown units.")
     ASSUMPTIONS = [
         "a fresh instance built with the documented configuration of the "
         "row/format is the reference for a shared instance",
